@@ -8,5 +8,6 @@ CONSTANTS
   TD <- ToDecBug
   NT <- NumText
   NTL <- NumTextLoc
+  CV <- Convert
 INVARIANTS LawDecBigAgrees
 CHECK_DEADLOCK FALSE
